@@ -43,11 +43,13 @@ use datafusion::common::parsers::CompressionTypeVariant;
 use datafusion::dataframe::DataFrameWriteOptions;
 use datafusion::datasource::MemTable;
 use datafusion::datasource::file_format::file_compression_type::FileCompressionType;
-use datafusion::prelude::{ArrowReadOptions, CsvReadOptions, JsonReadOptions, ParquetReadOptions, SessionContext};
+use datafusion::datasource::file_format::options::ArrowReadOptions;
+use datafusion::prelude::{CsvReadOptions, JsonReadOptions, ParquetReadOptions};
 use proptest::prelude::*;
 use serde::{Deserialize, Serialize};
 use std::collections::BTreeSet;
 use std::sync::Arc;
+use vf_kit::engine::Outcome as Outcome_;
 use vf_kit::engine::*;
 
 pub struct C25;
@@ -88,6 +90,10 @@ pub struct Case {
     pub read_api: bool,
     /// INSERT in two statements (append)
     pub two_inserts: bool,
+    /// SQL `VARCHAR` means Utf8View (the session default) instead of the written type Utf8 in the DDL used
+    /// for the sink table and for reading back (never for Arrow IPC, whose reader does not adapt types)
+    #[serde(default)]
+    pub varchar_is_view: bool,
 }
 
 const PARQUET_COMP: &[&str] = &["uncompressed", "snappy", "gzip(4)", "zstd(3)", "lz4", "lz4_raw", "brotli(3)"];
@@ -186,6 +192,9 @@ fn count_files(dir: &std::path::Path, out: &mut Vec<String>) {
 }
 
 fn fail(what: &str, e: &datafusion::error::DataFusionError) -> CaseResult {
+    if std::env::var("VERIF_DEBUG").is_ok() {
+        eprintln!("[c25] {what}: {e}");
+    }
     match classify(e) {
         ErrClass::Rejected => CaseResult::discard(format!("{what} rejected: {}", first_line(&e.to_string()))),
         ErrClass::Resources => CaseResult::inconclusive(format!("{what}: {e}")),
@@ -203,7 +212,7 @@ struct Outcome {
     nontrivial: bool,
 }
 
-async fn run_case(c: &Case, root: &std::path::Path) -> Result<Outcome, CaseResult> {
+async fn run_case_inner(c: &Case, root: &std::path::Path) -> Result<Outcome, CaseResult> {
     let p = c.plan();
     let n = c.cols.len();
     let cols: Vec<(String, Ty)> = p.names.iter().cloned().zip(c.cols.iter().cloned()).collect();
@@ -224,6 +233,15 @@ async fn run_case(c: &Case, root: &std::path::Path) -> Result<Outcome, CaseResul
     if c.sink == Sink::DataFrame && p.keep {
         sets.push(("datafusion.execution.keep_partition_by_columns".into(), "true".into()));
     }
+    if c.format == Fmt::Parquet && c.sink == Sink::Insert {
+        sets.push(("datafusion.execution.parquet.compression".into(), p.comp_name.clone()));
+    }
+    let view = c.varchar_is_view && c.format != Fmt::Arrow;
+    let view_set = ("datafusion.sql_parser.map_string_types_to_utf8view".to_string(), view.to_string());
+    sets.push(view_set.clone());
+    if view {
+        labels.push("ddl-varchar=utf8view".into());
+    }
     let o = SessOpts { target_partitions: c.target_partitions.clamp(1, 8) as usize, batch_size: 0, sets, list_files_cache: None };
     let ctx = session(&o).map_err(CaseResult::inconclusive)?;
     let mt = MemTable::try_new(schema.clone(), parts).map_err(|e| CaseResult::inconclusive(format!("memtable: {e}")))?;
@@ -237,11 +255,14 @@ async fn run_case(c: &Case, root: &std::path::Path) -> Result<Outcome, CaseResul
     let all_cols = p.names.join(", ");
     let col_defs = |idx: &[usize]| idx.iter().map(|i| format!("{} {}", p.names[*i], c.cols[*i].sql())).collect::<Vec<_>>().join(", ");
     let all_idx: Vec<usize> = (0..n).collect();
+    // `format.compression` of CREATE EXTERNAL TABLE means the *file* compression of CSV/NDJSON; the Parquet
+    // codec is a writer option: COPY takes it as an option, INSERT takes it from the session
     let comp_opt = match c.format {
-        Fmt::Arrow => None,
-        _ if p.comp_name == "uncompressed" && c.format != Fmt::Parquet => None,
+        Fmt::Arrow | Fmt::Parquet => None,
+        _ if p.comp_name == "uncompressed" => None,
         _ => Some(format!("'format.compression' '{}'", p.comp_name)),
     };
+    let copy_comp_opt = if c.format == Fmt::Parquet { Some(format!("'format.compression' '{}'", p.comp_name)) } else { None };
     let header_opt = if c.format == Fmt::Csv { Some("'format.has_header' 'true'".to_string()) } else { None };
     let table_opts: Vec<String> = comp_opt.iter().cloned().chain(header_opt.iter().cloned()).collect();
     let opts_clause = |extra: &[String]| {
@@ -252,7 +273,7 @@ async fn run_case(c: &Case, root: &std::path::Path) -> Result<Outcome, CaseResul
     match c.sink {
         Sink::CopyTable | Sink::CopyQuery => {
             let src = if c.sink == Sink::CopyTable { "src".to_string() } else { format!("(SELECT {all_cols} FROM src)") };
-            let mut extra = vec![];
+            let mut extra: Vec<String> = copy_comp_opt.iter().cloned().collect();
             if p.keep {
                 extra.push("'execution.keep_partition_by_columns' 'true'".to_string());
             }
@@ -321,7 +342,13 @@ async fn run_case(c: &Case, root: &std::path::Path) -> Result<Outcome, CaseResul
     labels.push(format!("files={}", files.len().min(9)));
 
     // ---- read back (fresh session: nothing cached from the write)
-    let rctx = session(&SessOpts { target_partitions: c.target_partitions.clamp(1, 8) as usize, batch_size: 0, sets: vec![], list_files_cache: None }).map_err(CaseResult::inconclusive)?;
+    let rctx = session(&SessOpts { target_partitions: c.target_partitions.clamp(1, 8) as usize, batch_size: 0, sets: vec![view_set], list_files_cache: None }).map_err(CaseResult::inconclusive)?;
+    // INSERT INTO names the files of a compressed CSV/NDJSON table `<id>.csv` / `<id>.json` (COPY and the
+    // DataFrame writers append `.gz` …): the reader is told the extension the files actually carry
+    let read_ext = if files.iter().all(|f| f.ends_with(&p.ext)) { p.ext.clone() } else { p.ext.strip_suffix(&p.comp_ext).unwrap_or(&p.ext).to_string() };
+    if read_ext != p.ext {
+        labels.push("compressed-files-without-compression-suffix".into());
+    }
     let read_part: Vec<usize> = if p.keep { vec![] } else { p.part.clone() };
     let file_idx: Vec<usize> = (0..n).filter(|i| !read_part.contains(i)).collect();
     let select = format!("SELECT {all_cols} FROM back");
@@ -339,9 +366,9 @@ async fn run_case(c: &Case, root: &std::path::Path) -> Result<Outcome, CaseResul
         let df = match c.format {
             Fmt::Parquet => rctx.read_parquet(target.clone(), ParquetReadOptions::new().schema(&file_schema).table_partition_cols(pcols)).await,
             Fmt::Csv => {
-                rctx.read_csv(target.clone(), CsvReadOptions::new().schema(&file_schema).has_header(true).file_extension(&p.ext).file_compression_type(fct).table_partition_cols(pcols)).await
+                rctx.read_csv(target.clone(), CsvReadOptions::new().schema(&file_schema).has_header(true).file_extension(&read_ext).file_compression_type(fct).table_partition_cols(pcols)).await
             }
-            Fmt::Json => rctx.read_json(target.clone(), JsonReadOptions::default().schema(&file_schema).file_extension(&p.ext).file_compression_type(fct).table_partition_cols(pcols)).await,
+            Fmt::Json => rctx.read_json(target.clone(), JsonReadOptions::default().schema(&file_schema).file_extension(&read_ext).file_compression_type(fct).table_partition_cols(pcols)).await,
             Fmt::Arrow => rctx.read_arrow(target.clone(), ArrowReadOptions::default().schema(&file_schema).table_partition_cols(pcols)).await,
         };
         let df = df.map_err(|e| fail("read_* of the written files", &e))?;
@@ -406,8 +433,24 @@ async fn run_case(c: &Case, root: &std::path::Path) -> Result<Outcome, CaseResul
             files.iter().map(|f| f.strip_prefix(&format!("{}/", out_dir.display())).unwrap_or(f).to_string()).take(12).collect::<Vec<_>>()
         )
     });
-    let _ = &p.comp_ext;
     Ok(Outcome { violation, labels, nontrivial })
+}
+
+async fn run_case(c: &Case, root: &std::path::Path) -> Result<Outcome, CaseResult> {
+    let p = c.plan();
+    let null_part = c.rows.iter().any(|r| p.part.iter().any(|i| r.get(*i).map(|v| v.is_null()).unwrap_or(true)));
+    match run_case_inner(c, root).await {
+        // a NULL partition value is outside the asserted domain: whatever happens is only recorded
+        Err(r) if null_part => {
+            let what = match &r.outcome {
+                Outcome_::Violation(_) => "null-partition-value:error(observe-only)",
+                Outcome_::Discard(_) => "null-partition-value:rejected(observe-only)",
+                _ => "null-partition-value:inconclusive(observe-only)",
+            };
+            Ok(Outcome { violation: None, labels: vec![what.to_string()], nontrivial: false })
+        }
+        other => other,
+    }
 }
 
 // ---------------------------------------------------------------------------------------------
@@ -501,13 +544,13 @@ impl Property for C25 {
                 1u8..5,
                 prop::bool::weighted(0.25),
             ),
-            (prop::collection::vec(any::<u16>(), 0..6), 1u8..4, 1u8..5, any::<bool>(), any::<bool>()),
+            (prop::collection::vec(any::<u16>(), 0..6), 1u8..4, 1u8..5, any::<bool>(), any::<bool>(), prop::bool::weighted(0.3)),
         )
-            .prop_map(|((cols, raws, part), (format, compression, sink, single_file, soft_max_rows, min_parallel_files, keep_partition_cols), (batch_cuts, src_partitions, target_partitions, read_api, two_inserts))| {
+            .prop_map(|((cols, raws, part), (format, compression, sink, single_file, soft_max_rows, min_parallel_files, keep_partition_cols), (batch_cuts, src_partitions, target_partitions, read_api, two_inserts, varchar_is_view))| {
                 let n = cols.len();
                 let pidx: BTreeSet<usize> = part.iter().map(|p| (*p as usize) % n).collect();
                 let rows: Vec<Row> = raws.iter().map(|rr| (0..n).map(|i| cell(&cols[i], &rr[i % rr.len()], pidx.contains(&i))).collect()).collect();
-                Case { cols, rows, part, format, compression, sink, single_file, soft_max_rows, min_parallel_files, keep_partition_cols, batch_cuts, src_partitions, target_partitions, read_api, two_inserts }
+                Case { cols, rows, part, format, compression, sink, single_file, soft_max_rows, min_parallel_files, keep_partition_cols, batch_cuts, src_partitions, target_partitions, read_api, two_inserts, varchar_is_view }
             })
             .boxed()
     }
